@@ -24,6 +24,9 @@ class C01(Property):
         "DetectionRule.detect")] + [
         ("antismash/common/secmet/locations.py", "get_distance_between_locations"),
         ("antismash/common/secmet/locations.py", "locations_overlap"),
+        ("antismash/common/hmm_rule_parser/rule_parser.py", "Parser._parse_single_condition"),
+        ("antismash/common/hmm_rule_parser/rule_parser.py", "Parser._parse_conditions"),
+        ("antismash/common/hmm_rule_parser/rule_parser.py", "Parser._parse_ands"),
         ("antismash/common/hmm_rule_parser/cluster_prediction.py", "apply_cluster_rules"),
         ("antismash/common/hmm_rule_parser/cluster_prediction.py", "_extend_area_location"),
         ("antismash/common/hmm_rule_parser/structures.py", "ProfileHit.__init__"),
@@ -68,6 +71,12 @@ class C01(Property):
             body = self._distinct([(self.rand_local(rng, depth - 1) if wf or rng.random() < 0.7
                                     else self.rand_cond(rng, depth - 1, wf)) for _ in range(n)])
             return ["cds", rng.random() < 0.4, body]
+        if rng.random() < 0.08:
+            # parentheses around one lone condition, with negations outside and inside: not (not x), ((not x)), …
+            inner = self.rand_cond(rng, 0, wf)
+            if inner[0] in ("single", "score", "minimum", "cds"):
+                inner = [inner[0], rng.random() < 0.6] + list(inner[2:])
+            return ["group", rng.random() < 0.6, [inner]]
         n = rng.choice([2, 2, 3])
         subs = self._distinct([self.rand_cond(rng, depth - 1, wf) for _ in range(n)])
         if r < 0.65 and len(subs) > 1:
@@ -276,6 +285,15 @@ class C01(Property):
             if "positive requirement" not in str(exc):
                 return {"err": err_kind(exc), "msg": str(exc)[:200]}
             return None
+        # the tree a run evaluates is the one the parser builds from the rule text: print the rule and read it back
+        # with the real Parser (which refuses a few shapes, e.g. cds(x) with one identifier: keep the hand-built tree)
+        try:
+            text = f"RULE r CATEGORY cat CUTOFF 1 NEIGHBOURHOOD 0 CONDITIONS {top}"
+            parsed = rp.Parser(text, set(self.PROFS), {"cat"}).rules[0]
+            parsed.cutoff = case["cutoff"]
+            rule = parsed
+        except Exception:  # pylint: disable=broad-except
+            pass
         seen: Dict[str, Any] = {}
         original = rp.DetectionRule.detect
 
